@@ -3,5 +3,5 @@ use super::dmlengine::{run_prop, Focus};
 use crate::Args;
 
 pub fn run(a: &Args) -> i32 {
-    run_prop(a, "C06", Focus::Failing, "generated histories over constraint-bearing schemas (PK, UNIQUE, NOT NULL, CHECK) in which about a third of INSERT/UPDATE statements are built to fail at a random row k of a multi-row statement (duplicate key, NULL into NOT NULL, CHECK violation); whenever the model and TurDB both reject a statement, every table bag and COUNT(*) must equal the state before it. distinct_nontrivial = distinct histories containing at least one statement rejected by both")
+    run_prop(a, "C06", Focus::Failing, "generated histories over constraint-bearing schemas (PK, UNIQUE, UNIQUE INDEX, NOT NULL, CHECK, FK with RESTRICT/CASCADE and ON UPDATE RESTRICT; every fifth history uses the 2-3 table schemas of C09) in which about 40% of INSERT/UPDATE statements are built to fail: one chosen constraint is violated by the k-th row of a multi-row INSERT (k = first/middle/last, duplicate of an existing key or of an earlier row of the same statement, NULL into NOT NULL, CHECK, missing FK parent) or by some of the rows of a multi-row UPDATE (SET u = existing value, SET c = c + k across a CHECK bound, SET nn = nullable column, SET fk = fk + k, parent key updates, parent deletes under RESTRICT). Whenever the model and TurDB both reject a statement, every table's bag and COUNT(*) must equal the state before it (unchanged_after_error); the history then continues (the model is re-synchronised at most twice if TurDB left rows behind). distinct_nontrivial = distinct histories containing at least one statement rejected by both")
 }
